@@ -236,8 +236,7 @@ GENERIC_DTCS = [c for c in E.DIBTypeCode if c not in (E.DIBTypeCode.DEVICE_INFO,
 def g_name(rng):
     n = rng.choice([0, 1, 5, 29, 30, rng.randrange(31)])
     chars = [chr(rng.choice([65, 97, 32, 0xE4, 0xFF, 0x80, 1, rng.randrange(1, 256)])) for _ in range(n)]
-    s = "".join(chars)
-    return s.rstrip("\0") if not s.endswith("\0") else s.rstrip("\0")
+    return "".join(chars).rstrip("\0")
 
 
 def g_dib(rng):
